@@ -197,6 +197,32 @@ def shape_of(flat, occs, u):
     return 'unclassified'
 
 
+def global_step(src, project, occs, pos2id):
+    """the real references.py:_find_global_variables on the names _find_names answers for every occurrence
+    (flow analysis off, as inside find_references): {occ id: sorted occurrence ids yielded}"""
+    import jedi
+    from jedi.inference import references as R
+    s = jedi.Script(src, project=project)
+    mc = s._get_module_context()
+    inf = mc.inference_state
+    out = {}
+    for o in occs:
+        leaf = s._module_node.get_name_of_position((o['line'], o['col']))
+        if leaf is None:
+            continue
+        try:
+            inf.flow_analysis_enabled = False
+            names = R._find_names(mc, leaf)
+            res = list(R._find_global_variables(names, leaf.value))
+        except Exception as e:
+            out[o['id']] = 'raised:%s@%s' % common.exc_site(e)
+            continue
+        finally:
+            inf.flow_analysis_enabled = True
+        out[o['id']] = sorted({pos2id.get(n.tree_name.start_pos, -1) if n.tree_name is not None else -1 for n in res})
+    return out
+
+
 def analyse(prog):
     """pure analysis of one program on the real code (runs in worker processes)"""
     import jedi
@@ -222,7 +248,9 @@ def analyse(prog):
             continue
         refs[o['id']] = sorted(pos2id.get((d.line, d.column), -1) for d in res)
     out = {'prog': prog, 'src': src, 'occs': occs, 'flat': flat, 'refs': refs, 'raised': raised,
-           'fails': [], 'judged': 0, 'renders': []}
+           'fails': [], 'judged': 0, 'renders': [], 'gvars': {}}
+    if any(o['role'] == 'global' for o in occs):
+        out['gvars'] = global_step(src, project, occs, pos2id)
     base = None
     # occurrences with a lexical meaning in the executed program: bindings, declarations, and uses
     # that were executed and found a binding.  A use that is never executed, or that reads an
@@ -312,6 +340,7 @@ EMPTY_PROJECT = '/var/tmp/verif-c05-empty-project'
 
 def fix_keys(out):
     out['refs'] = {int(k): v for k, v in out['refs'].items()}
+    out['gvars'] = {int(k): v for k, v in out.get('gvars', {}).items()}
     out['fails'] = [tuple(f) for f in out['fails']]
     out['renders'] = [tuple(r) for r in out['renders']]
     return out
@@ -527,6 +556,18 @@ def run(ctx):
                           bucket='refs=%d' % min(len(model), 5))
                 if model != impl:
                     ctx.tie_broken('correspondence:refs',
+                                   short({'source': out['src'], 'occ': occs[u], 'jedi': impl, 'model': model}, 1500))
+            # ---- stream globalstep: references.py:_find_global_variables alone vs Model.RefsGlobal.globalVariablesOf
+            # with the guard the translator reads from the source (programs with a `global` statement)
+            for u, impl in out['gvars'].items():
+                if isinstance(impl, str):
+                    ctx.count('raised', (out['src'], u), nontrivial=False, bucket='globalstep:' + impl)
+                    continue
+                model = sorted(a['globalvars'][u])
+                ctx.count('globalstep/' + out['tag'], (out['src'], u), nontrivial=len(model) > 1,
+                          bucket='linked=%d' % min(len(model), 6))
+                if model != impl:
+                    ctx.tie_broken('correspondence:globalstep',
                                    short({'source': out['src'], 'occ': occs[u], 'jedi': impl, 'model': model}, 1500))
             for u, prs, new_code in out['renders']:
                 model_ids = sorted(a['refs'][u])
